@@ -1,4 +1,334 @@
 import TbotVerif.Props.C04
+/-! C03 — raw channel I/O: read side. -/
+
 namespace C03
-theorem placeholder : True := trivial
+open Chan Spec
+
+/-- delivered byte count of a log segment -/
+def total (recs : List ReadRec) : Nat := (dataOf recs).flatten.length
+
+@[simp] theorem total_nil : total [] = 0 := rfl
+
+theorem total_cons_some (r : ReadRec) (rs : List ReadRec) (d : Bytes) (h : r.data = some d) :
+    total (r :: rs) = d.length + total rs := by
+  simp [total, dataOf_cons_some _ _ _ h]
+
+theorem total_cons_none (r : ReadRec) (rs : List ReadRec) (h : r.data = none) :
+    total (r :: rs) = total rs := by
+  simp [total, dataOf_cons_none _ _ h]
+
+/-- `read_iter` pulled to exhaustion / for `k` chunks: frame, request sizes, and what the
+    collected chunks are in terms of the transport log. -/
+theorem riTake_spec : ∀ (f : Nat) (k : Option Nat) (ri : RI) (s : St) (acc : List Bytes),
+    bytesLeft s + 1 < f + (if ri.started then 1 else 0) → WF s → 0 < s.chunk →
+    (∀ m, ri.max = some m → ri.got ≤ m) → (ri.started = false → ri.got = 0) →
+    ∃ recs, ReadFrame s (riTake f k ri s acc).2 recs
+      ∧ boundedReqs s.chunk ri.max ri.got recs = true
+      ∧ (∀ m, ri.max = some m → ri.got + total recs ≤ m)
+      ∧ (∀ cs, (riTake f k ri s acc).1 = (cs, none) →
+          cs = acc ++ dataOf recs ∧ (∀ j, k = some j → (dataOf recs).length ≤ j)
+            ∧ (k = none → ri.max = some (ri.got + total recs)))
+      ∧ (∀ cs e, (riTake f k ri s acc).1 = (cs, some e) →
+          (e = .timeout ∨ e = .hang ∨ ∃ x m, e = .death x m)
+          ∧ ((e = .timeout ∨ e = .hang) → cs = acc ++ dataOf recs
+                ∧ (∀ m, ri.max = some m → ri.got + total recs < m ∨ m = 0))
+          ∧ (∀ x m, e = .death x m → cs = acc ++ (dataOf recs).dropLast ∧ dataOf recs ≠ [])) := by
+  intro f
+  induction f with
+  | zero =>
+    intro k ri s acc hf
+    split at hf <;> omega
+  | succ f ih =>
+    intro k ri s acc hf hwf hc hgot hst
+    unfold riTake
+    split
+    · rename_i hk0
+      refine ⟨[], ReadFrame.refl s, rfl, by simpa using hgot, ?_, by simp⟩
+      intro cs h
+      simp only [Prod.mk.injEq, and_true] at h
+      subst h
+      refine ⟨by simp, fun j hj => by simp, fun h => by rw [h] at hk0; simp at hk0⟩
+    · rename_i hk0
+      have hout := riNext_out ri s
+      generalize riNext ri s = out at hout
+      obtain ⟨st, ri', s'⟩ := out
+      simp only at hout
+      -- when the generator is not exhausted there is room below `max`
+      have room : ¬ (ri.started = true ∧ ri.max = some ri.got) → ∀ m, ri.max = some m → ri.got < m ∨ m = 0 := by
+        intro hnd m hm
+        have hle := hgot m hm
+        cases hs : ri.started with
+        | true =>
+          left
+          rcases Nat.lt_or_ge ri.got m with h | h
+          · exact h
+          · exfalso; apply hnd; refine ⟨hs, ?_⟩; rw [hm]; congr; omega
+        | false =>
+          have := hst hs
+          rcases Nat.eq_zero_or_pos m with h | h
+          · right; exact h
+          · left; omega
+      have hwant : ∀ rec : ReadRec, rec.n = ri.maxRead s.chunk →
+          (rec.n == match ri.max with | none => s.chunk | some m => min s.chunk (m - ri.got)) = true := by
+        intro rec h
+        rw [h]; unfold RI.maxRead
+        cases ri.max <;> simp
+      cases hout with
+      | done h1 h2 =>
+        simp only
+        refine ⟨[], ReadFrame.refl s, rfl, by simpa using hgot, ?_, by simp⟩
+        intro cs h
+        simp only [Prod.mk.injEq, and_true] at h
+        subst h
+        exact ⟨by simp, fun j _ => by simp, fun _ => by simpa using h1⟩
+      | expired hnd hrem =>
+        simp only
+        refine ⟨[], ReadFrame.refl s, rfl, by simpa using hgot, by simp, ?_⟩
+        intro cs e h
+        simp only [Prod.mk.injEq, Option.some.injEq] at h
+        obtain ⟨rfl, rfl⟩ := h
+        refine ⟨Or.inl rfl, fun _ => ⟨by simp, fun m hm => ?_⟩, fun x m h => by simp at h⟩
+        simpa using room hnd m hm
+      | ioErr rem rec s' e hnd hrem hio =>
+        simp only
+        have herr := hio.err e rfl
+        refine ⟨[rec], hio.frame, ?_, ?_, by simp, ?_⟩
+        · have := hwant rec hio.hn
+          simp only [boundedReqs, herr.1, List.isEmpty_nil, Bool.and_true]
+          exact this
+        · intro m hm; rw [total_cons_none _ _ herr.1]; simpa using hgot m hm
+        · intro cs e' h
+          simp only [Prod.mk.injEq, Option.some.injEq] at h
+          obtain ⟨rfl, rfl⟩ := h
+          refine ⟨?_, fun _ => ⟨?_, fun m hm => ?_⟩, fun x m h => ?_⟩
+          · rcases herr.2.1 with h | h
+            · exact Or.inl h
+            · exact Or.inr (Or.inl h)
+          · rw [dataOf_cons_none _ _ herr.1]; simp
+          · rw [total_cons_none _ _ herr.1]; simpa using room hnd m hm
+          · rcases herr.2.1 with h' | h' <;> rw [h'] at h <;> simp at h
+      | death rem rec s1 b x m hnd hrem hio hchk =>
+        simp only
+        have hok := hio.ok b rfl
+        have hlen : ∀ m', ri.max = some m' → ri.got + b.length ≤ m' := by
+          intro m' hm
+          have h1 := hok.2.1
+          unfold RI.maxRead at h1; rw [hm] at h1
+          have := hgot m' hm
+          have : b.length ≤ m' - ri.got := Nat.le_trans h1 (Nat.min_le_right _ _)
+          omega
+        refine ⟨[rec], chunk_frame hio, ?_, ?_, by simp, ?_⟩
+        · have := hwant rec hio.hn
+          simp only [boundedReqs, hok.1, Bool.and_true, Bool.and_eq_true, decide_eq_true_eq]
+          exact ⟨this, by rw [hio.hn]; exact hok.2.1⟩
+        · intro m' hm; rw [total_cons_some _ _ _ hok.1]; simpa using hlen m' hm
+        · intro cs e' h
+          simp only [Prod.mk.injEq, Option.some.injEq] at h
+          obtain ⟨rfl, rfl⟩ := h
+          refine ⟨Or.inr (Or.inr ⟨x, m, rfl⟩), fun h => by rcases h with h | h <;> simp at h, fun _ _ _ => ?_⟩
+          rw [dataOf_cons_some _ _ _ hok.1]; simp
+      | chunk rem rec s1 b hnd hrem hio hchk =>
+        have hfr := chunk_frame hio
+        have hok := hio.ok b rfl
+        generalize hs2 : (check b (writeStream b s1)).2 = s2 at hfr
+        simp only
+        have hlen : ∀ m', ri.max = some m' → ri.got + b.length ≤ m' := by
+          intro m' hm
+          have h1 := hok.2.1
+          unfold RI.maxRead at h1; rw [hm] at h1
+          have := hgot m' hm
+          have : b.length ≤ m' - ri.got := Nat.le_trans h1 (Nat.min_le_right _ _)
+          omega
+        have hbytes := hfr.bytes
+        rw [dataOf_cons_some _ _ _ hok.1] at hbytes
+        simp only [dataOf_nil, List.flatten_cons, List.flatten_nil, List.append_nil] at hbytes
+        -- fuel for the recursive call
+        have hfuel : bytesLeft s2 + 1 < f + (if ({ ri with got := ri.got + b.length, started := true } : RI).started then 1 else 0) := by
+          simp only [if_true]
+          cases hs : ri.started with
+          | false => rw [hs] at hf; simp at hf; omega
+          | true =>
+            rw [hs] at hf; simp only [if_true] at hf
+            have hpos : 0 < ri.maxRead s.chunk := by
+              unfold RI.maxRead
+              cases hm : ri.max with
+              | none => exact hc
+              | some m' =>
+                simp only
+                rcases room hnd m' hm with h | h
+                · exact Nat.lt_min.mpr ⟨hc, by omega⟩
+                · exfalso; apply hnd; refine ⟨hs, ?_⟩
+                  have := hgot m' hm
+                  rw [hm]; congr; omega
+            have hbne := hok.2.2 hwf hpos
+            have : 0 < b.length := List.length_pos_iff.mpr hbne
+            omega
+        obtain ⟨recs, hf2, hb2, hm2, hok2, herr2⟩ := ih (k.map (· - 1)) { ri with got := ri.got + b.length, started := true }
+          s2 (acc ++ [b]) hfuel (hfr.wf hwf) (by rw [hfr.chunk]; exact hc) (fun m' hm => hlen m' hm) (fun h => by simp at h)
+        refine ⟨rec :: recs, hfr.trans hf2, ?_, ?_, ?_, ?_⟩
+        · have := hwant rec hio.hn
+          simp only [boundedReqs, hok.1, Bool.and_eq_true, decide_eq_true_eq]
+          refine ⟨this, by rw [hio.hn]; exact hok.2.1, ?_⟩
+          rw [hfr.chunk] at hb2; exact hb2
+        · intro m' hm
+          rw [total_cons_some _ _ _ hok.1]
+          have := hm2 m' hm
+          simp only at this; omega
+        · intro cs h
+          obtain ⟨h1, h2, h3⟩ := hok2 cs h
+          refine ⟨?_, ?_, ?_⟩
+          · rw [h1, dataOf_cons_some _ _ _ hok.1]; simp
+          · intro j hj
+            rw [dataOf_cons_some _ _ _ hok.1]
+            subst hj
+            have hj0 : j ≠ 0 := fun h => hk0 (by rw [h])
+            have := h2 (j - 1) rfl
+            simp only [List.length_cons]; omega
+          · intro hkn
+            subst hkn
+            have := h3 rfl
+            simp only at this
+            rw [this, total_cons_some _ _ _ hok.1]; congr 1; omega
+        · intro cs e h
+          obtain ⟨h1, h2, h3⟩ := herr2 cs e h
+          refine ⟨h1, fun hto => ?_, fun x m hx => ?_⟩
+          · obtain ⟨hc1, hc2⟩ := h2 hto
+            refine ⟨by rw [hc1, dataOf_cons_some _ _ _ hok.1]; simp, fun m' hm => ?_⟩
+            rw [total_cons_some _ _ _ hok.1]
+            rcases hc2 m' hm with h | h
+            · left; simp only at h; omega
+            · right; exact h
+          · obtain ⟨hc1, hc2⟩ := h3 x m hx
+            rw [dataOf_cons_some _ _ _ hok.1]
+            refine ⟨?_, by simp⟩
+            rw [hc1, List.dropLast_cons_of_ne_nil hc2]; simp
+
+theorem riTake_len : ∀ (f : Nat) (k : Option Nat) (ri : RI) (s : St) (acc : List Bytes) (j : Nat),
+    k = some j → (riTake f k ri s acc).1.1.length ≤ acc.length + j := by
+  intro f
+  induction f with
+  | zero => intro k ri s acc j _; simp [riTake]
+  | succ f ih =>
+    intro k ri s acc j hk
+    unfold riTake
+    split
+    · simp
+    · rename_i hk0
+      have hj0 : j ≠ 0 := fun h => hk0 (by rw [hk, h])
+      generalize riNext ri s = out
+      obtain ⟨st, ri', s'⟩ := out
+      cases st with
+      | done => simp
+      | err e => simp
+      | chunk b =>
+        simp only
+        have := ih (k.map (· - 1)) ri' s' (acc ++ [b]) (j - 1) (by rw [hk]; rfl)
+        simp only [List.length_append, List.length_cons, List.length_nil] at this
+        omega
+
+/-- `read(n)` for `n ≥ 0` on any state. -/
+theorem read_some_spec (n : Nat) (t : Option Nat) (s : St) (hwf : WF s) (hc : 0 < s.chunk) :
+    ∃ recs, ReadFrame s (read (some n) t s).2 recs
+      ∧ boundedReqs s.chunk (some n) 0 recs = true
+      ∧ total recs ≤ n
+      ∧ (∀ b, (read (some n) t s).1 = .ok b → b = (dataOf recs).flatten ∧ b.length = n)
+      ∧ (∀ e, (read (some n) t s).1 = .error e →
+          (e = .timeout ∨ e = .hang ∨ ∃ x m, e = .death x m)
+          ∧ ((e = .timeout ∨ e = .hang) → total recs < n ∨ n = 0)) := by
+  obtain ⟨recs, hf, hb, hm, hok, herr⟩ := riTake_spec (fuelFor s) none (riStart (some n) t s) s []
+    (by unfold fuelFor riStart; simp) hwf hc (by intro m hm; simp [riStart]) (fun _ => rfl)
+  have hmax : (riStart (some n) t s).max = some n := rfl
+  have hgot0 : (riStart (some n) t s).got = 0 := rfl
+  rw [hmax, hgot0] at hb
+  have htot : total recs ≤ n := by have := hm n hmax; rw [hgot0] at this; omega
+  unfold Chan.read
+  simp only
+  cases hres : riTake (fuelFor s) none (riStart (some n) t s) s [] with
+  | mk res s' =>
+    rw [hres] at hf hok herr
+    obtain ⟨cs, e⟩ := res
+    cases e with
+    | none =>
+      obtain ⟨hcs, _, hdone⟩ := hok cs rfl
+      have hn : n = total recs := by
+        have := hdone rfl; rw [hmax, hgot0] at this; simpa using this
+      simp only [List.nil_append] at hcs
+      have hlen : cs.flatten.length = n := by rw [hcs, hn]; rfl
+      simp only [hlen, beq_self_eq_true, if_true]
+      refine ⟨recs, hf, hb, htot, ?_, by simp⟩
+      intro b hb'
+      simp only [Except.ok.injEq] at hb'
+      subst hb'
+      exact ⟨by rw [hcs], hlen⟩
+    | some e =>
+      simp only
+      obtain ⟨hkind, hto, _⟩ := herr cs e rfl
+      refine ⟨recs, hf, hb, htot, by simp, ?_⟩
+      intro e' he
+      simp only [Except.error.injEq] at he
+      subst he
+      refine ⟨hkind, fun h => ?_⟩
+      have := (hto h).2 n hmax
+      rw [hgot0] at this; simpa using this
+
+/-- `read(1)`: exactly one transport request of one byte. -/
+theorem read_one_spec (t : Option Nat) (s : St) (hwf : WF s) (hc : 0 < s.chunk) :
+    (∃ rec c, ReadFrame s (read (some 1) t s).2 [rec] ∧ rec.n = 1 ∧ rec.data = some [c]
+        ∧ ((read (some 1) t s).1 = .ok [c] ∨ ∃ x m, (read (some 1) t s).1 = .error (.death x m)))
+    ∨ (∃ recs e, ReadFrame s (read (some 1) t s).2 recs ∧ (∀ r ∈ recs, r.n = 1) ∧ dataOf recs = []
+        ∧ (read (some 1) t s).1 = .error e ∧ (e = .timeout ∨ e = .hang)) := by
+  unfold Chan.read
+  simp only
+  have hfuel : fuelFor s = (bytesLeft s) + 1 + 1 := by unfold fuelFor; omega
+  rw [hfuel]
+  unfold riTake
+  simp only [reduceCtorEq, if_false]
+  have hmr : (riStart (some 1) t s).maxRead s.chunk = 1 := by
+    unfold RI.maxRead riStart; simp only [Nat.sub_zero]; omega
+  have hout := riNext_out (riStart (some 1) t s) s
+  generalize riNext (riStart (some 1) t s) s = out at hout
+  obtain ⟨st, ri', s'⟩ := out
+  simp only at hout
+  cases hout with
+  | done h1 h2 => simp [riStart] at h2
+  | expired hnd hrem =>
+    right
+    exact ⟨[], .timeout, ReadFrame.refl s, by simp, rfl, rfl, Or.inl rfl⟩
+  | ioErr rem rec s' e hnd hrem hio =>
+    right
+    have herr := hio.err e rfl
+    refine ⟨[rec], e, hio.frame, ?_, dataOf_cons_none _ _ herr.1, rfl, herr.2.1⟩
+    intro r hr; simp only [List.mem_singleton] at hr; subst hr; rw [hio.hn, hmr]
+  | death rem rec s1 b x m hnd hrem hio hchk =>
+    left
+    have hok := hio.ok b rfl
+    have hbne := hok.2.2 hwf (by rw [hmr]; exact Nat.one_pos)
+    have hb1 : b.length ≤ 1 := by have := hok.2.1; rw [hmr] at this; exact this
+    obtain ⟨c, rfl⟩ : ∃ c, b = [c] := by
+      match b, hbne, hb1 with
+      | [c], _, _ => exact ⟨c, rfl⟩
+      | _ :: _ :: _, _, h => simp at h
+    exact ⟨rec, c, chunk_frame hio, by rw [hio.hn, hmr], hok.1, Or.inr ⟨x, m, rfl⟩⟩
+  | chunk rem rec s1 b hnd hrem hio hchk =>
+    left
+    have hok := hio.ok b rfl
+    have hbne := hok.2.2 hwf (by rw [hmr]; exact Nat.one_pos)
+    have hb1 : b.length ≤ 1 := by have := hok.2.1; rw [hmr] at this; exact this
+    obtain ⟨c, rfl⟩ : ∃ c, b = [c] := by
+      match b, hbne, hb1 with
+      | [c], _, _ => exact ⟨c, rfl⟩
+      | _ :: _ :: _, _, h => simp at h
+    simp only
+    -- second resumption: the generator is exhausted
+    unfold riTake
+    simp only [Option.map_none, reduceCtorEq, if_false]
+    have hdone : riNext { riStart (some 1) t s with got := (riStart (some 1) t s).got + [c].length, started := true }
+        (check [c] (writeStream [c] s1)).2 =
+        (.done, { riStart (some 1) t s with got := (riStart (some 1) t s).got + [c].length, started := true },
+          (check [c] (writeStream [c] s1)).2) := by
+      unfold riNext riStart; simp
+    simp only [hdone]
+    refine ⟨rec, c, chunk_frame hio, by rw [hio.hn, hmr], hok.1, Or.inl ?_⟩
+    simp
+
 end C03
